@@ -25,7 +25,22 @@ TRUSTED = [
 
 CLAUSES = {1: "bounds_layout", 2: "conversion_log_slices", 3: "outside_declared_bounds", 4: "reported_not_applied",
            5: "decision_vector_modified", 6: "candidate_outside_box", 7: "refusal_rule",
-           8: "declaration_modified", 9: "processor_modified"}
+           8: "declaration_modified", 9: "processor_modified", 10: "parameter_count", 0: "harness_case_malformed"}
+
+# the container the placeholders of a vector variable are handed over in -> ckind of Model/DecisionKinds.v
+CKIND = {"und": "KUnd", "list": "KList", "tuple": "KTuple", "str": "KStr", "ndarray": "KArr", "userlist": "KSeq",
+         "gen": "KIter"}
+CONTAINER_KINDS = ["list", "tuple", "str", "ndarray", "userlist", "gen"]
+YAML_KINDS = ("list", "str")
+
+
+def kind_name(v):
+    return "und" if v["n"] is None else v.get("kind", "list")
+
+
+def spec_n(v):
+    """None: the declaration means a scalar ("_" or the one-element array equal to it), else the vector's width"""
+    return None if v["n"] is None or v.get("kind") == "ndarray" else v["n"]
 
 
 def h(x: float) -> str:
@@ -46,12 +61,14 @@ def log_pair(r):
     return float(f"1e{a}"), float(f"1e{b}"), a, b
 
 
-def gen_var(r, idx, shape=None, log=None, per=None):
+def gen_var(r, idx, shape=None, log=None, per=None, kind=None):
     """-> (payload var, box info [(kind, lo, hi)] per component in decision space)."""
     model = r.randrange(2)
     if shape is None:
         shape = "s" if r.random() < 0.4 else r.choice([1, 2, 2, 3, 3, 4])
     n = None if shape == "s" else int(shape)
+    if kind == "str" and n == 1:
+        kind = "list"             # "_" * 1 IS the scalar declaration
     if log is None:
         log = r.random() < 0.45
     if per is None:
@@ -75,6 +92,8 @@ def gen_var(r, idx, shape=None, log=None, per=None):
         bnd = ["shared", h(pairs[0][0]), h(pairs[0][1])]
         comps = comps * w
     v = dict(key=f"m{model}.p{idx}", model=model, arg=f"p{idx}", n=n, log=bool(log), bnd=bnd)
+    if kind not in (None, "list") and n is not None:
+        v["kind"] = kind
     return v, comps
 
 
@@ -126,12 +145,40 @@ FIXED_LAYOUTS = [
 ]
 
 
-def make_case(r, layout=None, mode="direct", **extra):
+# layouts whose vector variables come in other containers than a list: (shape, log, per, container)
+KIND_LAYOUTS = [
+    [(3, True, False, "tuple"), ("s", False, False)],               # log vector in a tuple before a linear scalar
+    [("s", False, False), (2, False, True, "tuple"), ("s", True, False)],
+    [(2, True, False, "str"), ("s", False, False)],                 # values="__"
+    [(1, True, False, "ndarray"), (2, False, False, "list")],       # np.array(["_"]) == "_": a scalar declaration
+    [(2, False, True, "userlist"), ("s", True, False)],
+    [(0, True, False, "tuple"), ("s", False, False)],               # C10-F2: an EMPTY container is kept as it is
+    [(0, True, False, "str"), ("s", False, False)],
+    [("s", True, False), (0, False, False, "userlist"), (2, True, False, "list")],
+    [(2, False, False, "gen"), ("s", False, False)],                # a generator is not a Sequence
+    [(2, True, False, "ndarray")],                                  # `values == "_"` is ambiguous
+    [(3, False, False, "tuple"), (2, True, True, "tuple")],
+]
+# written as YAML and loaded by pyxel.configuration.loads
+YAML_LAYOUTS = [
+    [(3, True, False, "list"), ("s", False, False)],
+    [("s", True, False), (2, False, True, "list"), (2, True, False, "str")],
+    [(0, False, False, "list"), ("s", True, False), (0, True, False, "str")],
+]
+
+
+def make_case(r, layout=None, mode="direct", p_kind=0.0, **extra):
     if layout is None:
         layout = [(None, None, None)] * r.choice([1, 2, 2, 3, 3, 4, 5])
     vars_, comps = [], []
-    for i, (shape, log, per) in enumerate(layout):
-        v, c = gen_var(r, i, shape, log, per)
+    for i, entry in enumerate(layout):
+        shape, log, per = entry[:3]
+        kind = entry[3] if len(entry) > 3 else None
+        if kind is None and p_kind and r.random() < p_kind:
+            kind = r.choice(YAML_KINDS if extra.get("via") == "yaml" else ["tuple", "tuple", "str", "userlist", "ndarray"])
+        v, c = gen_var(r, i, shape, log, per, kind)
+        if v.get("kind") == "ndarray" and v["n"] == 1:
+            c = c[:1]
         vars_.append(v)
         comps += c
     case = dict(mode=mode, vars=vars_, xs=[], evaluate=[], **extra)
@@ -178,6 +225,17 @@ def small_scope_layouts(max_vars=3):
     out = []
     for n in range(1, max_vars + 1):
         out += [list(t) for t in itertools.product(KINDS, repeat=n)]
+    return out
+
+
+def container_scope_layouts(r):
+    """Every list of 1..2 variables over: "_" and each container kind with 0, 1, 2 placeholders (19 shapes)."""
+    import itertools
+    shapes = [("s", None)] + [(n, k) for k in CONTAINER_KINDS for n in (0, 1, 2) if not (k == "str" and n == 1)]
+    out = []
+    for m in (1, 2):
+        for t in itertools.product(shapes, repeat=m):
+            out.append([(n, r.random() < 0.5, False if n in ("s", 0) else r.random() < 0.4, k) for n, k in t])
     return out
 
 
@@ -264,17 +322,36 @@ def gen_cases(ctx: Ctx, n_direct: int, n_malformed: int, calibs: list):
     for lay in FIXED_LAYOUTS:
         cases.append(make_case(r, lay))
         cases.append(make_case(r, lay))
+    for lay in KIND_LAYOUTS:
+        cases.append(make_case(r, lay))
+    for lay in YAML_LAYOUTS:
+        cases.append(make_case(r, lay, via="yaml"))
     if not ctx.quick:
         # exhaustive small scope: every list of 1..3 variables over the six kinds
         cases += [make_case(r, lay) for lay in small_scope_layouts(3)]
+        # ... and every list of 1..2 variables over "_" and every container with 0 / 1 / 2 placeholders
+        cases += [make_case(r, lay) for lay in container_scope_layouts(r)]
+    k = 0
     while len(cases) < n_direct:
-        cases.append(make_case(r))
+        # one case in four hands some vectors over in another container, one in eight goes through YAML
+        k += 1
+        if k % 8 == 3:
+            cases.append(make_case(r, p_kind=0.3, via="yaml"))
+        else:
+            cases.append(make_case(r, p_kind=0.5 if k % 4 == 1 else 0.0))
     for _ in range(n_malformed):
         cases.append(malformed_case(r))
     for k, (algo, seed, islands) in enumerate(calibs):
         lay = FIXED_LAYOUTS[[1, 2, 4, 3, 6, 8][k % 6]]
+        extra = {}
+        if k % 3 == 0:
+            # the vector variables are handed over in a tuple (Python API) ...
+            lay = [e if e[0] == "s" else (*e, "tuple") for e in lay]
+        elif k % 3 == 1:
+            # ... or the declaration comes from a YAML text
+            extra["via"] = "yaml"
         cases.append(make_case(r, lay, mode="calib", algo=algo, seed=seed, islands=islands,
-                               generations=2, pop=8, evolutions=2, num_best=3))
+                               generations=2, pop=8, evolutions=2, num_best=3, **extra))
     # declarations of total width one (C10-F1: the island's row became a 0-d array in the final application)
     for k, lay in enumerate([] if ctx.quick else WIDTH_ONE_LAYOUTS):      # quick: the corpus case
         cases.append(make_case(r, lay, mode="calib", algo="sade", seed=20 + k, islands=1 + k % 2,
@@ -312,8 +389,13 @@ def emit_var(v) -> str:
         bnd = f"(Shared ({raw(b[1])}) ({raw(b[2])}))"
     else:
         bnd = "(PerComp " + core.clist(f"({raw(lo)}, {raw(hi)})" for lo, hi in b[1]) + ")"
-    shape = "None" if v["n"] is None else f"(Some {core.cnat(v['n'])})"
+    shape = "None" if spec_n(v) is None else f"(Some {core.cnat(v['n'])})"
     return f"mkVar {core.cstr(v['key'])} {shape} {core.cbool(v['log'])} {bnd}"
+
+
+def emit_pval(kind, n) -> str:
+    # an object of a kind the harness does not know equals no prediction
+    return f"({CKIND.get(kind, 'KIter')}, {core.cnat(n if kind in CKIND else 99)})"
 
 
 def emit_applied(a) -> str:
@@ -343,7 +425,11 @@ def emit_case(case, obs) -> str:
     else:
         bounds = "None"
     probes = core.clist(emit_probe(strip_bystanders(p)) for p in obs.get("probes", []))
-    return f"{{| c_vars := {vs}; c_bounds := {bounds}; c_probes := {probes} |}}"
+    inner = f"{{| c_vars := {vs}; c_bounds := {bounds}; c_probes := {probes} |}}"
+    decl = core.clist(emit_pval(kind_name(v), 1 if v["n"] is None else v["n"]) for v in case["vars"])
+    vals = "None" if obs.get("vals") is None else "(Some " + core.clist(emit_pval(k, n) for k, n in obs["vals"]) + ")"
+    npar = "None" if obs.get("npar") is None else f"(Some {core.cnat(obs['npar'])})"
+    return f"{{| kc_case := {inner}; kc_decl := {decl}; kc_vals := {vals}; kc_npar := {npar} |}}"
 
 
 SEVEN = (7.0).hex()
@@ -367,13 +453,12 @@ def strip_bystanders(p):
 def emit_file(pairs) -> str:
     body = ";\n  ".join(emit_case(c, o) for c, o in pairs)
     return ("From Coq Require Import ZArith QArith List String.\n"
-            "From PyxelV Require Import Model.Decision Model.DecisionSrc.\n"
+            "From PyxelV Require Import Model.Decision Model.DecisionSrc Model.DecisionKinds.\n"
             "From PyxelGen Require Import Gen_C10.\n"
             "Import ListNotations.\nLocal Open Scope Q_scope.\n"
-            f"Definition cases : list c10_case := [\n  {body}\n].\n"
-            "Eval vm_compute in mismatches cases.\n"
-            "Eval vm_compute in violation_details cases.\n"
-            "Eval vm_compute in mismatches_g src_desc cases.\n")
+            f"Definition cases : list c10_kcase := [\n  {body}\n].\n"
+            "Eval vm_compute in kmismatches src_kinds src_desc cases.\n"
+            "Eval vm_compute in kviolation_details cases.\n")
 
 
 # ---- histories
@@ -477,9 +562,12 @@ def layout_class(case):
     vs = case["vars"]
     first_vec = next((i for i, v in enumerate(vs) if v["n"] is not None), None)
     vec_before_scalar = first_vec is not None and any(v["n"] is None for v in vs[first_vec + 1:])
+    odd = sorted({("empty " if v["n"] == 0 else "") + v["kind"] for v in vs if v.get("kind", "list") != "list"
+                  and v["n"] is not None})
     return dict(vector_before_scalar=vec_before_scalar, any_log=any(v["log"] for v in vs),
                 any_per_component=any(v["bnd"] and v["bnd"][0] == "per" for v in vs),
-                total_width_one=sum(1 if v["n"] is None else v["n"] for v in vs) == 1)
+                total_width_one=sum(1 if v["n"] is None else v["n"] for v in vs) == 1,
+                containers="+".join(odd) if odd else "list")
 
 
 def to_violation(case, obs, clauses, pb) -> Violation:
@@ -501,7 +589,8 @@ def to_violation(case, obs, clauses, pb) -> Violation:
     if "malformed" in case:
         sig["malformed"] = case["malformed"]
     what = (f"{clause} ({', '.join(CLAUSES.get(c, str(c)) for c in clauses)}) on "
-            f"{[(v['key'], 'scalar' if v['n'] is None else v['n'], 'log' if v['log'] else 'lin') for v in case['vars']]}"
+            f"{[(v['key'], 'scalar' if v['n'] is None else (v['n'] if v.get('kind', 'list') == 'list' else (v['kind'], v['n'])), 'log' if v['log'] else 'lin') for v in case['vars']]}"
+            + (" declared in YAML" if case.get("via") == "yaml" else "")
             + (f" via {tag}" if tag else ""))
     return Violation(clause=clause, case=small, observed=observed,
                      expected="bounds, conversion and assignment use the declared slices; log only on log slices; "
@@ -556,14 +645,19 @@ def correspondence(ctx: Ctx, cases, tag="c", workers=8):
     for name in sorted(files):
         ok, evals, se = res[name]
         chunk = chunks[name]
-        if not ok or len(evals) != 3:
+        if not ok or len(evals) != 2:
             ctx.broken.append(Broken("correspondence", f"case file {name}.v did not evaluate", core.tail(se, 15)))
             continue
-        mism += [chunk[i] for i in core.parse_int_list(evals[0])]
+        codes = core.parse_int_list(evals[0])
+        for i, code in zip(codes[0::2], codes[1::2]):
+            if code & 1:
+                mism.append(chunk[i])
+            if code & 2:
+                ctx.gen_mismatch.append(chunk[i])
+            if code & 4:
+                ctx.kind_mismatch.append(chunk[i])
         for i, (cl, pb) in sorted(parse_details(evals[1]).items()):
             viol.append((chunk[i][0], chunk[i][1], cl, pb))
-        for i in core.parse_int_list(evals[2]):
-            ctx.gen_mismatch.append(chunk[i])
     for name in sorted(hfiles):
         ok, evals, se = res[name]
         chunk = hchunks[name]
@@ -578,6 +672,10 @@ def correspondence(ctx: Ctx, cases, tag="c", workers=8):
         ctx.count("evaluations", max(n, 1))
         ctx.count("cases")
         ctx.dist("mode", c.get("malformed") and "malformed" or c.get("mode", "direct"))
+        ctx.dist("declared_via", c.get("via", "python api"))
+        for v in c["vars"]:
+            ctx.dist("container", ("empty " if v["n"] == 0 else "") + kind_name(v))
+        ctx.dist("refused_at", o.get("stage", "-") if "refused" in o else "built")
         ctx.dist("n_vars", len(c["vars"]))
         ctx.dist("outcome", "refused" if "refused" in o else "built")
         for p in o.get("probes", []):
@@ -643,6 +741,7 @@ def to_violation_hist(case, obs, k, clauses) -> Violation:
 
 def run(ctx: Ctx):
     ctx.gen_mismatch = []
+    ctx.kind_mismatch = []
     ctx.trusted += TRUSTED
     ctx.assumptions += [
         "boundaries of logarithmic variables are positive (enforced by the code for scalars; hypothesis of "
@@ -700,7 +799,7 @@ def run(ctx: Ctx):
                                "(boundaries, placeholders, flags, configured values of the caller's processor and of every "
                                "problem's own processor) and judged in Coq against the declaration")
     ctx.cov["traces_validated_against_impl"] = len(pairs) + len(hpairs)
-    ctx.cov["disagreements_checked"] = len(mism) + len(hmism) + len(ctx.gen_mismatch)
+    ctx.cov["disagreements_checked"] = len(mism) + len(hmism) + len(ctx.gen_mismatch) + len(ctx.kind_mismatch)
     ctx.cov["log_tolerance"] = "2^-50 relative (4 ulp) on np.power(10, x), math.log10, np.log10; exact elsewhere"
     for c, o in pairs[:3]:
         ctx.sample(dict(vars=c["vars"], bounds=[o.get("lb"), o.get("ub")],
@@ -710,7 +809,7 @@ def run(ctx: Ctx):
     for c, o, st, cl in hviol:
         ctx.violations.append(to_violation_hist(c, o, st, cl))
     (ctx.build / "mismatches.json").write_text(json.dumps(
-        [dict(case=c, observed=o) for c, o in (mism + hmism + ctx.gen_mismatch)][:20], indent=1))
+        [dict(case=c, observed=o) for c, o in (mism + hmism + ctx.gen_mismatch + ctx.kind_mismatch)][:20], indent=1))
     for c, o in mism:
         ctx.broken.append(Broken("correspondence", "Model/Decision.v vs implementation",
                                  f"model and implementation differ on {[v['key'] for v in c['vars']]}",
@@ -719,6 +818,11 @@ def run(ctx: Ctx):
         ctx.broken.append(Broken("correspondence", "walks of the generated description (Gen_C10.v) vs implementation",
                                  f"the description read from the source and the implementation differ on "
                                  f"{[v['key'] for v in c['vars']]}", dict(case=c)))
+    for c, o in ctx.kind_mismatch:
+        ctx.broken.append(Broken("correspondence", "type tests + walks of the generated description (src_kinds, src_desc) "
+                                 "vs implementation",
+                                 f"the type tests read from the source and the implementation differ on "
+                                 f"{[(v['key'], kind_name(v), v['n']) for v in c['vars']]}", dict(case=c)))
     for c, o in hmism:
         ctx.broken.append(Broken("correspondence", "object-store model (generated description) vs implementation",
                                  f"model and implementation differ on a history over {[v['key'] for v in c['vars']]}",
@@ -737,7 +841,10 @@ def search(ctx: Ctx):
     ctx.log("searching for a concrete failing input (more declarations, more calibrations)")
     r = ctx.rng("search")
     cases = [make_case(r, lay) for lay in FIXED_LAYOUTS for _ in range(3)]
-    cases += [make_case(r) for _ in range(300)]
+    cases += [make_case(r) for _ in range(200)]
+    cases += [make_case(r, lay) for lay in KIND_LAYOUTS for _ in range(2)]
+    cases += [make_case(r, lay) for lay in container_scope_layouts(r)]
+    cases += [make_case(r, p_kind=0.6) for _ in range(100)] + [make_case(r, p_kind=0.4, via="yaml") for _ in range(40)]
     for k, (algo, seed, islands) in enumerate([("sade", 3, 2), ("sga", 4, 2), ("sade", 5, 1), ("nlopt", 6, 1)]):
         cases.append(make_case(r, FIXED_LAYOUTS[(k + 1) % 6], mode="calib", algo=algo, seed=seed, islands=islands,
                                generations=3, pop=8, evolutions=2, num_best=4))
@@ -774,8 +881,10 @@ def replay(ctx: Ctx, rp: dict) -> int:
     print("implementation: bounds", [float.fromhex(v) for v in obs.get("lb", [])],
           [float.fromhex(v) for v in obs.get("ub", [])], obs.get("refused", ""))
     prepare_gen(ctx, gen_text)
+    print("containers:", [(kind_name(v), v["n"]) for v in case["vars"]], "->", obs.get("vals"),
+          "| parameters counted:", obs.get("npar"), "| declared via", case.get("via", "python api"))
     ok, evals, se = core.coq_eval(ctx, "replay", emit_file([(case, obs)]))
-    if not ok or len(evals) != 3:
+    if not ok or len(evals) != 2:
         print("case file did not evaluate:", core.tail(se, 10))
         return 1
     bad = core.parse_int_list(evals[1]) != []
